@@ -829,8 +829,13 @@ def exec_c13(prop, desc):
         # Plan.copy / Registry.copy are independent of their originals (both directions)
         b = rec.built
         before = machine.snapshot(b)
-        p2 = b.plan.copy()
-        r2 = b.registry.copy() if b.registry is not None else None
+        # (both classes spell `__copy__ = copy`: the copy module is the other documented way to get a copy)
+        import copy as _copy
+
+        via_module = desc["seed"] % 5 < 2
+        mk = (lambda o: _copy.copy(o)) if via_module else (lambda o: o.copy())
+        p2 = mk(b.plan)
+        r2 = mk(b.registry) if b.registry is not None else None
         cp = _PR(p2, r2)
         cp.ids, cp.nodes = {}, {}
         before_copy = machine.snapshot(cp)
@@ -845,10 +850,10 @@ def exec_c13(prop, desc):
             r2.mapping.pop(next(iter(r2.mapping)), None)
         d = machine.snapshot_diff(before, machine.snapshot(b))
         if d:
-            viol.append(O.V("copy-not-independent", f"mutating Plan.copy()/Registry.copy() changed the original: {d}"))
+            viol.append(O.V("copy-not-independent", f"mutating {'copy.copy(plan) / copy.copy(registry)' if via_module else 'Plan.copy() / Registry.copy()'} changed the original: {d}"))
         else:
-            p3 = b.plan.copy()
-            r3 = b.registry.copy() if b.registry is not None else None
+            p3 = mk(b.plan)
+            r3 = mk(b.registry) if b.registry is not None else None
             cp3 = _PR(p3, r3)
             s3 = machine.snapshot(cp3)
             y = b.plan.call(len, [2])
